@@ -3,6 +3,7 @@ argument-signature exhaustiveness."""
 import ast
 
 from ..core import RuleResult, need
+from ..idioms import loop_table_values
 from ..cfg import cfg_of
 from ..flow import flow_of
 from ..astutil import (src, call_attr, call_name, compare_parts, is_name, path_of, walk_no_nested, self_attr_stores,
@@ -245,6 +246,11 @@ def rule_a3(repo):
     for meth, idfun in (('incr_proof_item', 'incr_id_after'), ('decr_proof_item', 'decr_id')):
         f = need(item.methods.get(meth), 'ProofItem.%s not found' % meth)
         id_ok = prevs_ok = sub_ok = False
+        # the renumbering may be one worker shared by both directions, given the direction as a function: read through it.
+        # The worker calling itself on a nested step with the arguments it was entered with is the recursion of `meth`.
+        from ..inline import inlined
+        f, expanded, _left = inlined(f, lambda h: h.cls is item and h.name not in ('incr_proof_item', 'decr_proof_item'))
+        again = {(q.split('.')[-1], tuple(src(a, 200) for a in c.args)) for q, _l, c in expanded}
         for n in ast.walk(f.node):
             if isinstance(n, ast.Assign):
                 for t in n.targets:
@@ -254,7 +260,8 @@ def rule_a3(repo):
                             call_attr(n.value.elt) == idfun and path_of(n.value.generators[0].iter) == 'self.prevs' and not n.value.generators[0].ifs:
                         prevs_ok = True
             if isinstance(n, ast.For) and path_of(n.iter) == 'self.subproof.items' and any(
-                    isinstance(c, ast.Call) and call_attr(c) == meth for c in ast.walk(n)):
+                    isinstance(c, ast.Call) and (call_attr(c) == meth or (call_attr(c), tuple(src(a, 200) for a in c.args)) in again)
+                    for c in ast.walk(n)):
                 sub_ok = True
         for what, ok in (('id', id_ok), ('prevs', prevs_ok), ('subproof', sub_ok)):
             res.add('%s :: ProofItem.%s :: rewrites(%s)' % (PROOF, meth, what), ok,
@@ -352,7 +359,13 @@ def rule_a5(repo):
     for n in ast.walk(pa.node):
         cp = compare_parts(n) if isinstance(n, ast.Compare) else None
         if cp and cp[0] is ast.Eq and is_name(cp[1], sigp):
-            handled.add(_sig_text(cp[2], pa.module, repo))
+            # a comparison with a loop variable over a written-out table of signatures stands for its rows
+            vals = loop_table_values(pa.node, cp[2].id, pa.module) if isinstance(cp[2], ast.Name) else None
+            for v in (vals if vals is not None else [cp[2]]):
+                handled.add(_sig_text(v, pa.module, repo))
+        if cp and cp[0] is ast.In and is_name(cp[1], sigp) and isinstance(cp[2], (ast.Tuple, ast.List, ast.Set)):
+            for v in cp[2].elts:
+                handled.add(_sig_text(v, pa.module, repo))
     need(len(handled) >= 5, 'parser.parse_args: signature dispatch not found')
     sources = {}
     for mi in macro_index(repo):
